@@ -1,12 +1,42 @@
 // C08 TSan scenarios: TcpConnection (send, forceClose, forceCloseWithDelay, startRead, stopRead, one shutdown)
 // over a loopback connection served by a TcpServer living on the loop thread, and TcpClient
 // (connect, disconnect, stop, connection).  The peer is a raw blocking socket on its own pthread.
+#include <errno.h>
+#include <fcntl.h>
+#include <poll.h>
+#include <pthread.h>
+#include <stdint.h>
+#include <stdio.h>
+#include <stdlib.h>
+#include <string.h>
+#include <sys/socket.h>
+#include <sys/time.h>
+#include <sys/types.h>
+#include <netinet/in.h>
+#include <netinet/tcp.h>
+#include <arpa/inet.h>
+#include <unistd.h>
+#include <algorithm>
+#include <atomic>
+#include <functional>
+#include <iostream>
+#include <map>
+#include <memory>
+#include <set>
+#include <sstream>
+#include <string>
+#include <vector>
+#include <boost/any.hpp>
+#include <boost/circular_buffer.hpp>
+// the forced-schedule scenarios need the ADDRESSES of TcpConnection::state_ / loop_ (nothing else private is touched)
+#define private public
 #include "C08_tsan.h"
 #include "muduo/net/TcpServer.h"
 #include "muduo/net/TcpClient.h"
 #include "muduo/net/TcpConnection.h"
 #include "muduo/net/InetAddress.h"
 #include "muduo/net/Buffer.h"
+#undef private
 
 using namespace muduo;
 using namespace muduo::net;
@@ -60,6 +90,7 @@ struct Peer
 {
   int port, ms, fd;
   bool close_early;
+  std::atomic<int> stop;          // set by a scenario: close now
   pthread_t th;
   static void* run(void* p)
   {
@@ -75,12 +106,13 @@ struct Peer
       if (::send(self->fd, out, sizeof out, MSG_NOSIGNAL | MSG_DONTWAIT) < 0 && errno != EAGAIN) break;
       ssize_t n = ::recv(self->fd, in, sizeof in, MSG_DONTWAIT);
       if (n == 0) break;
+      if (self->stop.load(std::memory_order_relaxed)) break;
       ::usleep(250);
     }
     ::close(self->fd);
     return NULL;
   }
-  Peer(int port_, int ms_) : port(port_), ms(ms_), fd(-1), close_early(false) { pthread_create(&th, NULL, &Peer::run, this); }
+  Peer(int port_, int ms_) : port(port_), ms(ms_), fd(-1), close_early(false), stop(0) { pthread_create(&th, NULL, &Peer::run, this); }
   void join() { pthread_join(th, NULL); }
 };
 
@@ -188,6 +220,169 @@ C08_SCENARIO(conn_shutdown)
   sleep_ms(60);
 }
 
+// A caller that reuses / frees its buffer as soon as send() has returned: the functor must own a copy of the bytes
+// (TcpConnection::send binds message.as_string()); a bound StringPiece would read the caller's freed memory.
+C08_SCENARIO(conn_send_buffer_reuse)
+{
+  ConnFixture f(150);
+  for (int i = 0; i < 300; ++i)
+  {
+    {
+      std::string msg(200, static_cast<char>('a' + i % 26));
+      f.conn->send(msg);                     // foreign thread; msg dies at the end of this block
+    }
+    {
+      char* raw = static_cast<char*>(::malloc(300));
+      memset(raw, 'r', 300);
+      f.conn->send(raw, 300);                // send(const void*, int)
+      memset(raw, 'x', 300);                 // the caller rewrites, then frees its buffer
+      ::free(raw);
+    }
+    if (i % 4 == 0) ::usleep(300);
+  }
+  sleep_ms(40);
+}
+
+// ---------------------------------------------------------------- forced schedules (see C08_tsan.h)
+namespace
+{
+// the other side's move while the caller is parked: the peer closes, the loop thread takes the connection down and the
+// server drops its references (handleClose -> removeConnectionInLoop -> connectDestroyed)
+void peerCloseAndWaitDown(void* p)
+{
+  Peer* peer = static_cast<Peer*>(p);
+  peer->stop.store(1, std::memory_order_relaxed);
+  for (int i = 0; i < 4000 && g_down.load(std::memory_order_relaxed) == 0; ++i) ::usleep(500);
+  ::usleep(40 * 1000);
+}
+// the calling thread becomes the only user-side owner of the connection (the server's map holds the other reference)
+TcpConnectionPtr soleOwner(ConnFixture& f)
+{
+  TcpConnectionPtr c = f.conn;
+  f.conn.reset();
+  {
+    MutexLockGuard lock(g_mu);
+    g_conn.reset();
+  }
+  return c;
+}
+void busy(int ms) { ::usleep(ms * 1000); }
+}  // namespace
+
+// raw `this` in send(): the caller has seen kConnected and is about to post sendInLoop(this, copy); the connection goes
+// down and the server lets go of it; the caller posts, returns and drops the last reference: the connection is destroyed on
+// the caller's thread and the loop thread then runs sendInLoop on the freed object.
+C08_SCENARIO(f_send_rawthis)
+{
+  ConnFixture f(3000);
+  sleep_ms(10);
+  TcpConnectionPtr c = soleOwner(f);
+  {
+    c08::StallHelper h(&peerCloseAndWaitDown, f.peer);
+    c08::arm_stall(&c->loop_, false);         // first read of loop_ in send() comes after `state_ == kConnected`
+    c->send("late");
+    c.reset();                                // ~TcpConnection here, functor still queued
+  }
+  sleep_ms(60);
+}
+
+// the same for shutdown(): parked after `setState(kDisconnecting)`, before `loop_->runInLoop(bind(shutdownInLoop, this))`
+C08_SCENARIO(f_shutdown_rawthis)
+{
+  ConnFixture f(3000);
+  sleep_ms(10);
+  TcpConnectionPtr c = soleOwner(f);
+  {
+    c08::StallHelper h(&peerCloseAndWaitDown, f.peer);
+    c08::arm_stall(&c->loop_, false);
+    c->shutdown();
+    c.reset();
+  }
+  sleep_ms(60);
+}
+
+// startRead()/stopRead() post ...InLoop(this) unconditionally: a caller that still holds a connection which is already
+// down (the server has let go) calls it while the loop is busy and drops its reference.
+C08_SCENARIO(f_startRead_rawthis)
+{
+  ConnFixture f(3000);
+  sleep_ms(10);
+  TcpConnectionPtr c = soleOwner(f);
+  f.peer->stop.store(1, std::memory_order_relaxed);
+  for (int i = 0; i < 4000 && g_down.load() == 0; ++i) ::usleep(500);
+  sleep_ms(40);
+  f.host->loop()->runInLoop(std::bind(&busy, 80));   // (synchronisation BEFORE the operation under test)
+  sleep_ms(10);
+  c->startRead();
+  c.reset();
+  sleep_ms(120);
+}
+
+C08_SCENARIO(f_stopRead_rawthis)
+{
+  ConnFixture f(3000);
+  sleep_ms(10);
+  TcpConnectionPtr c = soleOwner(f);
+  f.peer->stop.store(1, std::memory_order_relaxed);
+  for (int i = 0; i < 4000 && g_down.load() == 0; ++i) ::usleep(500);
+  sleep_ms(40);
+  f.host->loop()->runInLoop(std::bind(&busy, 80));
+  sleep_ms(10);
+  c->stopRead();
+  c.reset();
+  sleep_ms(120);
+}
+
+// F-11 lost update, forced: forceClose() has read kConnected and is parked before its store of kDisconnecting; the peer
+// closes and the loop thread runs handleClose (state_ = kDisconnected, DOWN callback, removal); the caller's store then
+// overwrites kDisconnected and the queued forceCloseInLoop runs handleClose a SECOND time: second DOWN callback and
+// assert(n == 1) in TcpServer::removeConnectionInLoop.  Ends in abort on the pinned tree (explained by the recorded key).
+C08_SCENARIO(f_lost_update_forceClose)
+{
+  ConnFixture f(3000);
+  sleep_ms(10);
+  TcpConnectionPtr c = f.conn;
+  {
+    c08::StallHelper h(&peerCloseAndWaitDown, f.peer);
+    c08::arm_stall(&c->state_, true);
+    c->forceClose();
+  }
+  sleep_ms(80);
+  printf("downs=%d\n", g_down.load());
+}
+
+// the same lost update through forceCloseWithDelay(): the delayed forceClose() finds kDisconnecting and closes a second time
+C08_SCENARIO(f_lost_update_forceCloseWithDelay)
+{
+  ConnFixture f(3000);
+  sleep_ms(10);
+  TcpConnectionPtr c = f.conn;
+  {
+    c08::StallHelper h(&peerCloseAndWaitDown, f.peer);
+    c08::arm_stall(&c->state_, true);
+    c->forceCloseWithDelay(0.02);
+  }
+  sleep_ms(120);
+  printf("downs=%d\n", g_down.load());
+}
+
+// ... and through shutdown(): the connection that is down ends up in kDisconnecting for good; its destructor's
+// assert(state_ == kDisconnected) fails when the last owner lets go.
+C08_SCENARIO(f_lost_update_shutdown)
+{
+  ConnFixture f(3000);
+  sleep_ms(10);
+  TcpConnectionPtr c = soleOwner(f);
+  {
+    c08::StallHelper h(&peerCloseAndWaitDown, f.peer);
+    c08::arm_stall(&c->state_, true);
+    c->shutdown();
+  }
+  sleep_ms(60);                 // shutdownInLoop has run (on a live object: this thread still owns it)
+  c.reset();                    // ~TcpConnection
+  sleep_ms(20);
+}
+
 // ---------------------------------------------------------------- TcpClient
 namespace
 {
@@ -239,7 +434,7 @@ void onClientConn(const TcpConnectionPtr& conn)
 // Tear a TcpClient down the only way its source calls safe: on its own loop thread (~TcpClient: "FIXME: not 100% safe,
 // if we are in different thread"; Connector::stop()/start() post functors bound to the raw `this`, "FIXME: unsafe").
 // The destructor is not one of the any-thread operations of C08; destroying the client on the calling thread is the
-// F-13 lifetime hazard, shown on purpose by x_client_stop_then_foreign_dtor only (docs/C08.md).
+// F-13 lifetime hazard, shown on purpose by client_stop_then_foreign_dtor only (docs/C08.md).
 void deleteClient(TcpClient* c) { delete c; }
 void destroyOnLoop(LoopHost& host, TcpClient* client)
 {
@@ -305,10 +500,10 @@ C08_SCENARIO(client_flags_vs_loop)
   sleep_ms(1100);
 }
 
-// NOT part of the default suite (x_): the F-13 family lifetime hazard.  stop() posts Connector::stopInLoop bound to the raw
+// raw `this` in Connector::stop() (F-13 family).  stop() posts Connector::stopInLoop bound to the raw
 // `this`; with a live connection ~TcpClient does not hand connector_ to the loop (that is only done in its else-branch), so
 // the Connector is freed on the calling thread with nothing ordering the loop thread's stopInLoop before the free.
-C08_SCENARIO(x_client_stop_then_foreign_dtor)
+C08_SCENARIO(client_stop_then_foreign_dtor)
 {
   RawServer srv(600);
   LoopHost host;
